@@ -7,7 +7,11 @@
 //!  ask_consistency       C11  size > 0, class matches base denom, quote supported
 //!  exit_liveness         C06  every open order can be cancelled / expired for its whole escrow
 
-use crate::run::{clone_storage, ledger_get, parse_msg, Book, BidEntry, AskEntry, CallResult, Msg, World};
+use crate::props;
+use crate::run::{
+    clone_storage, ledger_get, parse_msg, AskEntry, BidEntry, Book, CallResult, Msg, Request, Snap,
+    World,
+};
 use ats_smart_contract::ask_order::{AskOrderClass, AskOrderStatus, AskOrderV1};
 use ats_smart_contract::bid_order::BidOrderV3;
 use ats_smart_contract::contract_info::ContractInfoV3;
@@ -17,19 +21,29 @@ use rust_decimal::Decimal;
 use std::collections::{BTreeMap, BTreeSet};
 use std::str::FromStr;
 
-pub const ORACLES: [&str; 6] = [
+pub const ORACLES: [&str; 15] = [
     "solvency",
     "approver_tracks_size",
     "mechanism",
     "bid_consistency",
     "ask_consistency",
     "exit_liveness",
+    "authorization",
+    "config_change",
+    "migration",
+    "admission",
+    "match_eligibility",
+    "settlement",
+    "queries",
+    "attributes",
+    "instantiate_coherence",
 ];
 
 #[derive(Clone, Debug)]
 pub enum OracleSel {
     All,
     One(String),
+    Set(Vec<String>),
     Nothing,
 }
 
@@ -38,6 +52,7 @@ impl OracleSel {
         match self {
             OracleSel::All => true,
             OracleSel::One(n) => n == name,
+            OracleSel::Set(v) => v.iter().any(|n| n == name),
             OracleSel::Nothing => false,
         }
     }
@@ -50,7 +65,7 @@ pub struct OracleResult {
 }
 
 impl OracleResult {
-    fn from_failures(failures: Vec<String>, ok_detail: String) -> OracleResult {
+    pub fn from_failures(failures: Vec<String>, ok_detail: String) -> OracleResult {
         if failures.is_empty() {
             OracleResult {
                 holds: true,
@@ -65,20 +80,45 @@ impl OracleResult {
     }
 }
 
+/// Everything a step-level oracle may look at: the state before the request, the request, its
+/// outcome and emitted messages / attributes, the state after it.
 pub struct StepCtx<'a> {
+    /// instantiate | execute | migrate | set_version | put_ask | put_bid | put_bid_v2
+    pub kind: &'a str,
     pub exec_kind: Option<&'a str>,
     pub sender: Option<&'a str>,
+    pub request: &'a Request,
+    pub funds: &'a [cosmwasm_std::Coin],
+    pub ok: bool,
+    pub panicked: bool,
+    pub error: Option<&'a str>,
     pub messages: &'a [Msg],
+    pub attributes: &'a [(String, String)],
+    pub pre: &'a Snap,
+    pub post: &'a Snap,
 }
 
 pub fn evaluate(
     world: &World,
     book: &Book,
-    ci: Option<&ContractInfoV3>,
     step: &StepCtx,
     sel: &OracleSel,
 ) -> BTreeMap<String, OracleResult> {
     let mut out = BTreeMap::new();
+    // step-level oracles (some of them also judge refused requests)
+    for (name, f) in props::STEP_ORACLES {
+        if sel.wants(name) {
+            if let Some(r) = f(world, step) {
+                out.insert(name.to_string(), r);
+            }
+        }
+    }
+    if !step.ok {
+        return out;
+    }
+    // state-level oracles, evaluated after successful steps only
+    let ci_owned = world.contract_info();
+    let ci = ci_owned.as_ref();
     if sel.wants("solvency") {
         out.insert("solvency".to_string(), solvency(world, book));
     }
@@ -151,7 +191,7 @@ fn solvency(world: &World, book: &Book) -> OracleResult {
                 *owed.entry(bid.quote.denom.clone()).or_insert(0) += bid_owed(bid);
             }
             BidEntry::V2 { order, .. } => {
-                let v3: BidOrderV3 = order.clone().into();
+                let v3 = crate::run::legacy_as_current(order);
                 *owed.entry(v3.quote.denom.clone()).or_insert(0) += bid_owed(&v3);
             }
             BidEntry::Unknown { key, .. } => notes.push(format!("unparseable bid {key} ignored")),
